@@ -187,15 +187,16 @@ func (r *ReqSpec) Encode() []byte {
 
 // RespSpec describes one origin response.
 type RespSpec struct {
-	Status  int
-	Reason  string
-	Proto   string
-	Header  []wire.HF
-	Framing string // none | cl | chunked | close
-	Body    []byte
-	Chunks  []int
-	Trailer []wire.HF
-	Close   bool // send Connection: close and close after the response
+	Status             int
+	Reason             string
+	Proto              string
+	Header             []wire.HF
+	Framing            string // none | cl | chunked | close
+	Body               []byte
+	Chunks             []int
+	Trailer            []wire.HF
+	UnannouncedTrailer bool // send the trailer fields without naming them in a Trailer header (a SHOULD, RFC 7230 4.4)
+	Close              bool // send Connection: close and close after the response
 	// HeadCL, for responses to HEAD: advertise this Content-Length without a body.
 	HeadCL int
 }
@@ -229,7 +230,7 @@ func (r *RespSpec) Encode(method string) []byte {
 		fmt.Fprintf(&w, "Content-Length: %d\r\n", len(r.Body))
 	case r.Framing == "chunked":
 		w.WriteString("Transfer-Encoding: chunked\r\n")
-		if len(r.Trailer) > 0 {
+		if len(r.Trailer) > 0 && !r.UnannouncedTrailer {
 			names := make([]string, len(r.Trailer))
 			for i, t := range r.Trailer {
 				names[i] = t.Name
